@@ -65,6 +65,7 @@ type history struct {
 	Interleave uint64  `json:"interleave,omitempty"` // hash of the sequence of yield-point names
 	YieldHits  int     `json:"yield_hits,omitempty"`
 	Canary     int     `json:"-"`
+	Panic      string  `json:"panic,omitempty"` // "site|value" of a panic inside a library call
 }
 
 // ---------------------------------------------------------------------------------------------
@@ -72,6 +73,10 @@ type history struct {
 
 // checkDirect returns ("", "") if all direct invariants hold, else a violation key + explanation.
 func checkDirect(h *history) (string, string) {
+	if h.Panic != "" {
+		site, val, _ := strings.Cut(h.Panic, "|")
+		return "panic/" + site, "a library call panics: " + val
+	}
 	c := h.P.Cap
 	var pushes, deqs []op
 	pushOf := map[int]op{}
@@ -267,9 +272,11 @@ type qState struct {
 //
 //	open:   Push accepted iff len < c; dequeue removes the head; Pull never returns false
 //	Close:  empties the queue (documented: Close discards pending data)
-//	closed: Push may be refused or accepted; an accepted one is held but may be dropped: a dequeue
-//	        of a held item drops everything accepted before it (order is still acceptance order);
-//	        Pull may return false.
+//	closed: Push may be refused or accepted; an accepted one is held and may be dropped or still be
+//	        dequeued (once). The held items form a set here: that the ones that are executed are
+//	        executed in acceptance order is checked by the direct invariant on real-time ordered
+//	        pushes (keeping the order in the state makes the search explode on the many
+//	        concurrent post-close pushes). Pull may return false.
 func fifoModel(c int) porcupine.Model {
 	return porcupine.Model{
 		Init: func() any { return qState{} },
@@ -284,8 +291,15 @@ func fifoModel(c int) porcupine.Model {
 						return false, s
 					}
 				}
-				if ok {
-					return true, qState{s.q + string([]byte{i.id}), s.closed}
+				if ok && !s.closed {
+					return true, qState{s.q + string([]byte{i.id}), false}
+				}
+				if ok { // closed: a set (kept sorted), see above
+					k := 0
+					for k < len(s.q) && s.q[k] < i.id {
+						k++
+					}
+					return true, qState{s.q[:k] + string([]byte{i.id}) + s.q[k:], true}
 				}
 				return true, s
 			case 'd':
@@ -299,7 +313,7 @@ func fifoModel(c int) porcupine.Model {
 				if k < 0 {
 					return false, s
 				}
-				return true, qState{s.q[k+1:], true}
+				return true, qState{s.q[:k] + s.q[k+1:], true}
 			case 'f':
 				return s.closed, s
 			case 'c':
